@@ -45,10 +45,13 @@ type Program struct {
 	comparable map[string]bool // interface types whose dynamic types are assumed comparable
 	ghostMaps  map[string]string // "#name" -> Go type of the key (ghost counters indexed by a value)
 	guards     map[string]guardInfo // heap array "H_T.f" -> mutex guarding it
+	muIDs      map[string]int
 }
 
 type guardInfo struct {
 	muField string
+	st      types.Type
+	muIdx   int
 	muOff   int64 // offset of the mutex field in the struct that directly contains the guarded field
 	stable  bool  // write-once field: an unlocked read is allowed once the field has been seen set under the lock
 }
@@ -344,6 +347,39 @@ func fieldOffset(s *types.Struct, i int) int64 {
 		n += fieldSize(s.Field(j).Type())
 	}
 	return n
+}
+
+// isMutex: sync.Mutex / sync.RWMutex (by value).
+func isMutex(t types.Type) bool {
+	n, ok := t.(*types.Named)
+	if !ok || n.Obj().Pkg() == nil || n.Obj().Pkg().Path() != "sync" {
+		return false
+	}
+	return n.Obj().Name() == "Mutex" || n.Obj().Name() == "RWMutex"
+}
+
+// muAddr: identity of the mutex stored in field i of the struct at base. Plain address arithmetic (base + offset) can
+// coincide for mutexes of different objects, so the identity is base*1024 + id with a program-wide id per
+// (struct type, field): injective in (base, id) for id < 1024.
+func (p *Program) muAddr(e *Enc, base T, st types.Type, i int) T {
+	if p.muIDs == nil {
+		p.muIDs = map[string]int{}
+	}
+	s, _ := structOf(st)
+	key := p.typeName(st) + "." + s.Field(i).Name()
+	id, ok := p.muIDs[key]
+	if !ok {
+		id = len(p.muIDs) + 1
+		p.muIDs[key] = id
+	}
+	// an uninterpreted pairing function with inverses (injective), rather than arithmetic on addresses
+	fn := e.declFun("muid", []Sort{SInt, SInt}, SInt)
+	if len(e.facts[fn]) == 0 {
+		e.declFun("muid_base", []Sort{SInt}, SInt)
+		e.declFun("muid_field", []Sort{SInt}, SInt)
+		e.addFact(fn, "(assert (forall ((b!m Int) (i!m Int)) (! (and (= (muid_base (muid b!m i!m)) b!m) (= (muid_field (muid b!m i!m)) i!m)) :pattern ((muid b!m i!m)))))")
+	}
+	return App(SInt, fn, base, IntLit(int64(id)))
 }
 
 // typeName: short name of a (named) struct type for heap array names.
